@@ -317,7 +317,31 @@ def gen_malformed_case(rng) -> dict[str, Any]:
     return {"kind": "malformed", "source": src, "data": V.enc(data), "mode": rng.choice(MODES), "extra": True, "flags": rng.random() < 0.5}
 
 
+# render data under the names that tags and filters themselves look up in the render context (their documented "context variables"), and
+# names the engine binds on its own: data is data, whatever it is called
+RESERVED_NAMES = ["translations", "locale", "input_locale", "timezone", "input_timezone", "currency_code", "currency_format", "datetime_format", "decimal_quantization",
+                  "decimal_format", "unit_length", "unit_format", "group_separator", "count", "context", "forloop", "tablerowloop", "block", "partial", "template", "now", "today", "args", "kwargs"]
+RESERVED_VALUES: list[Any] = [None, True, False, 0, -1, 2**63, 1.5, float("inf"), float("nan"), "", "x", "en_US", "de", "%", "\u00a4#,##0.00", "short", "UTC", "Europe/Paris", "nope/zone", [], [1],
+                              ["en"], {}, {"a": 1}, range(3), "\x00", "\u00e9" * 50, "en-US", "1", " ", "EUR", "xx_YY", "en_", "_US", "en_US_POSIX_x", "e" * 300]
+RESERVED_SOURCES = [
+    "{{ 'x' | t }}", "{{ 'x' | gettext }}", "{{ 'x' | ngettext: 'y', 2 }}", "{{ 'x' | pgettext: 'c' }}", "{% translate %}x{% endtranslate %}", "{% translate count: 2 %}x{% plural %}y {{ count }}{% endtranslate %}",
+    "{{ 10 | currency }}", "{{ 10 | money }}", "{{ '10' | money_with_currency }}", "{{ 1.5 | decimal }}", "{{ '1,5' | decimal }}", "{{ 'now' | datetime }}", "{{ 0 | datetime }}",
+    "{{ '2020-01-01' | datetime: format: 'short' }}", "{{ 5 | unit: 'length-meter' }}", "{{ 5 | unit: 'mass-gram', length: 'long' }}", "{{ 1000 | decimal: group_separator: false }}", "{{ '1 000' | currency }}",
+    "{% for i in (1..2) %}{{ forloop.index }}{{ forloop.parentloop.index }}{% endfor %}{{ forloop.index }}", "{% tablerow i in (1..2) %}{{ tablerowloop.col }}{% endtablerow %}{{ tablerowloop.col }}",
+    "{% include 'p' %}{{ partial }}{{ template.name }}", "{% render 'p' %}{{ partial }}", "{{ now | date: '%Y' }}{{ today | date: '%Y' }}", "{% macro m a %}{{ args | join: ',' }}{{ kwargs | size }}{% endmacro %}{% call m 1, 2, k: 3 %}{{ args }}",
+    "{% extends 'base' %}{% block c %}{{ block.super }}{{ block }}{% endblock %}", "{{ count | plus: 1 }}{{ context }}",
+]
+
+
 def cases(ctx: core.Ctx):
+    k = 0
+    for name in RESERVED_NAMES:
+        for v in RESERVED_VALUES:
+            for src in RESERVED_SOURCES:
+                k += 1
+                if k % ctx.nshards != ctx.shard or (ctx.tier == "quick" and k % 2):
+                    continue
+                yield {"kind": "reserved-name", "source": src, "data": V.enc({name: v}), "mode": MODES[k % 3], "extra": True, "async": k % 7 == 0}
     rng = ctx.rng("cases")
     fnames, _ = filter_names()
     pool = V.hostile_pool()
